@@ -1,6 +1,6 @@
 (** C06 — slice indexing facts and small tactics shared by the C06 proof files. *)
 From Coq Require Import ZArith List Bool Lia.
-From Geo Require Import Base.GoPrim Gen.C06Util Model.Shapes.
+From Geo Require Import Base.GoPrim Gen.CellIDCov Model.Shapes.
 Import ListNotations.
 Local Open Scope Z_scope.
 
